@@ -1,0 +1,82 @@
+//go:build verif
+
+// Contracts for the deductive verifier under /verif (govc). Comment-only file: it adds no code and is
+// compiled only with the build tag "verif".
+
+package regex
+
+// the pattern string is exactly the bytes strictly between position 0 and position p of the content
+//@ pred patternIs(pat string, c []byte, p Int) := len(pat) == p - 1 && (forall i :: 0 <= i && i < p - 1 ==> pat[i] == c[1+i])
+
+//@ func (*RSchema).doCompile
+//@   property C18 C02 C16
+//@   requires s != nil && s.File != nil
+//@   let c := s.File.content.data
+//@   let n := len(c)
+//@   modifies s.pattern, s.RE
+//@   ensures (result == nil) == (n >= 1 && c[0] == 47 && rclose(c, n) && validRE(s.pattern))
+//@   ensures n >= 1 && c[0] == 47 && rclose(c, n) ==> patternIs(s.pattern, c, rfirst(c, n)) && 1 <= rfirst(c, n) && rfirst(c, n) < n && c[rfirst(c, n)] == 47
+//@   ensures result == nil ==> s.RE != nil
+//@   ensures result != nil ==> typeis(result, kit.JSchemaError) && unbox(result, kit.JSchemaError).hasIndex && unbox(result, kit.JSchemaError).index < (n > 1 ? n : 1) && unbox(result, kit.JSchemaError).file == s.File
+//@   no_panic
+//@   loop#1 invariant -1 <= rangeindex && rangeindex < n - 1 && n >= 1 && c[0] == 47 && !found
+//@   loop#1 invariant escaped == resc(c, rangeindex+2) && !rclose(c, rangeindex+2)
+//@   loop#1 invariant s.File == old(s.File) && content.data == c && s.File.content.data == c && elems(c) == old(elems(c))
+//@   loop#1 decreases n - rangeindex
+//@   at loop#1.entry use unfold_resc(c, 1); unfold_rclose(c, 1); unfold_rfirst(c, 1)
+//@   at loop#1.back use unfold_resc(c, rangeindex+2); unfold_rclose(c, rangeindex+2); unfold_rfirst(c, rangeindex+2)
+//@   at return#3 use unfold_resc(c, rangeindex+2); unfold_rclose(c, rangeindex+2); unfold_rfirst(c, rangeindex+2); rfirst_stable(c, rangeindex+2, n)
+//@   at return#4 use unfold_resc(c, rangeindex+2); unfold_rclose(c, rangeindex+2); unfold_rfirst(c, rangeindex+2); rfirst_stable(c, rangeindex+2, n)
+//@   at return#5 use unfold_resc(c, rangeindex+2); unfold_rclose(c, rangeindex+2); unfold_rfirst(c, rangeindex+2); rfirst_stable(c, rangeindex+2, n)
+
+//@ pred compiled(s *RSchema) := once_done(s.compileOnce.once)
+
+//@ func (*RSchema).Compile
+//@   property C18 C02 C16
+//@   requires s != nil && s.File != nil
+//@   let c := s.File.content.data
+//@   let n := len(c)
+//@   modifies s.pattern, s.RE, s.compileOnce, once_done(s.compileOnce.once)
+//@   ensures compiled(s) && result == s.compileOnce.err
+//@   ensures old(compiled(s)) ==> result == old(s.compileOnce.err) && s.pattern == old(s.pattern) && s.RE == old(s.RE)
+//@   ensures !old(compiled(s)) ==> (result == nil) == (n >= 1 && c[0] == 47 && rclose(c, n) && validRE(s.pattern))
+//@   ensures !old(compiled(s)) && n >= 1 && c[0] == 47 && rclose(c, n) ==> patternIs(s.pattern, c, rfirst(c, n)) && 1 <= rfirst(c, n) && rfirst(c, n) < n
+//@   ensures !old(compiled(s)) && result != nil ==> typeis(result, kit.JSchemaError) && unbox(result, kit.JSchemaError).hasIndex && unbox(result, kit.JSchemaError).index < (n > 1 ? n : 1)
+//@   no_panic
+
+// accepted <=> the content starts with '/', has a later unescaped '/', and the text between them compiles
+//@ pred regexAccepted(s *RSchema) := len(s.File.content.data) >= 1 && s.File.content.data[0] == 47 && rclose(s.File.content.data, len(s.File.content.data)) && validRE(s.pattern)
+
+//@ func (*RSchema).Check
+//@   property C18 C02 C16
+//@   requires s != nil && s.File != nil && !compiled(s)
+//@   modifies s.pattern, s.RE, s.compileOnce, once_done(s.compileOnce.once)
+//@   ensures (result == nil) == regexAccepted(s)
+//@   ensures result != nil ==> typeis(result, kit.JSchemaError) && unbox(result, kit.JSchemaError).hasIndex && unbox(result, kit.JSchemaError).index < (len(s.File.content.data) > 1 ? len(s.File.content.data) : 1)
+//@   no_panic
+
+//@ func (*RSchema).Len
+//@   property C18 C02
+//@   requires s != nil && s.File != nil && !compiled(s)
+//@   modifies s.pattern, s.RE, s.compileOnce, once_done(s.compileOnce.once)
+//@   ensures (result1 == nil) == regexAccepted(s)
+//@   ensures result1 == nil ==> result0 == rfirst(s.File.content.data, len(s.File.content.data)) + 1 && result0 <= len(s.File.content.data)
+//@   no_panic
+
+//@ func (*RSchema).Pattern
+//@   property C18 C02
+//@   requires s != nil && s.File != nil && !compiled(s)
+//@   modifies s.pattern, s.RE, s.compileOnce, once_done(s.compileOnce.once)
+//@   ensures (result1 == nil) == regexAccepted(s)
+//@   ensures result1 == nil ==> patternIs(result0, s.File.content.data, rfirst(s.File.content.data, len(s.File.content.data)))
+//@   no_panic
+
+//@ func (*RSchema).GetAST
+//@   property C18 C02
+//@   requires s != nil && s.File != nil && !compiled(s)
+//@   modifies s.pattern, s.RE, s.compileOnce, once_done(s.compileOnce.once)
+//@   ensures (result1 == nil) == regexAccepted(s)
+//@   ensures result1 == nil ==> len(result0.Value) == len(s.pattern) + 2 && result0.Value[0] == 47 && result0.Value[len(s.pattern)+1] == 47
+//@   ensures result1 == nil ==> (forall i :: 0 <= i && i < len(s.pattern) ==> result0.Value[1+i] == s.pattern[i])
+//@   ensures result1 == nil ==> result0.TokenType == "string" && result0.SchemaType == "string" && !result0.IsKeyShortcut && result0.Rules != nil && len(result0.Rules.order) == 0 && result0.Rules.data == nil
+//@   no_panic
